@@ -80,6 +80,7 @@ class Aff:
         self.f = f
         self.memo = {}
         self._stores = None
+        self._pairs = None
 
     def names(self, lin):
         f = self.f
@@ -199,19 +200,185 @@ class Aff:
         if op == "phi":
             sc = I.get("scev")
             if sc and sc.get("k") == "rec":
-                return self.scev(sc)
+                r = self.scev(sc)
+                if r is not None:
+                    return r
             # phi with identical incoming values
             vals = [self.value(tuple(x[0])) for x in I.get("inc")]
             if vals and all(x == vals[0] for x in vals[1:]):
                 return vals[0]
+            pr = self.paired(I)
+            if pr is not None:
+                return pr
             return None
         if op == "load":
             st = self.reaching_store(I)
             if st is not None:
                 return self.value(st.ops[0])
+            c = self.canon_load(I)
+            if c is not None and c.id != I.id:
+                return self.value(("i", c.id))
             return None
         if op == "and" and o[1][0] == "c" and int(o[1][1]) == (1 << 32) - 1:
             return self.value(o[0])  # (unsigned) truncation written as a mask at -O3
+        return None
+
+    def _loop_phi_parts(self, I):
+        """for a loop-header phi: (initial value, back-edge value) or None"""
+        f = self.f
+        L = f.loop_of(I.b)
+        if L is None:
+            return None
+        ini = back = None
+        for inc, pb in I.get("inc"):
+            if pb in L["blocks"]:
+                if back is not None:
+                    return None
+                back = tuple(inc)
+            else:
+                if ini is not None:
+                    return None
+                ini = tuple(inc)
+        if ini is None or back is None:
+            return None
+        return ini, back
+
+    def _strip(self, v):
+        I = self.f.inst(v)
+        while I is not None and I.op in ("zext", "sext", "trunc"):
+            v = I.ops[0]
+            I = self.f.inst(v)
+        return v
+
+    def paired(self, I):
+        """loop-header phis (P pointer, N remaining length) whose back values are P + x and N - x for the same
+        non-constant x: with the fresh symbol adv >= 0 (bytes consumed so far)  P = P0 + adv  and  N = N0 - adv."""
+        f = self.f
+        if self._pairs is None:
+            self._pairs = {}
+            for L in f.loops:
+                hdr = L["header"]
+                phis = [f.insts[i] for i in f.blocks[hdr].insts if f.insts[i].op == "phi"]
+                for N in phis:
+                    if (N.get("ty") or "").endswith("*"):
+                        continue
+                    pn = self._loop_phi_parts(N)
+                    if pn is None:
+                        continue
+                    B = f.inst(pn[1])
+                    if B is None or B.op != "sub" or B.ops[0] != ("i", N.id):
+                        continue
+                    x = self._strip(B.ops[1])
+                    for P in phis:
+                        if not (P.get("ty") or "").endswith("*"):
+                            continue
+                        pp = self._loop_phi_parts(P)
+                        if pp is None:
+                            continue
+                        G = f.inst(pp[1])
+                        if G is None or G.op != "getelementptr" or G.ops[0] != ("i", P.id) or G.get("off") != 0:
+                            continue
+                        var = G.get("var") or []
+                        if len(var) != 1 or int(var[0][1]) != 1 or self._strip(tuple(var[0][0])) != x:
+                            continue
+                        adv = ("adv", P.id)
+                        self._pairs[P.id] = (pp[0], 1, adv)
+                        self._pairs[N.id] = (pn[0], -1, adv)
+        ent = self._pairs.get(I.id)
+        if ent is None:
+            return None
+        ini, sign, adv = ent
+        return self.value(ini).add(Lin.sym(adv), sign)
+
+    def canon_load(self, L):
+        """an earlier load of the same (parameter-based, constant offset) location that dominates L with no
+        possible write to that object in between: both loads see the same value"""
+        f = self.f
+        base, off = ir.ptr_base(f, L.ops[0])
+        if base[0] != "a" or off is None:
+            return None
+        writers = []
+        for S in f.insts:
+            if S.op == "store":
+                b2, o2 = ir.ptr_base(f, S.ops[1])
+                if b2 == base and (o2 is None or (o2 < off + L.get("size") and off < o2 + S.get("size"))):
+                    writers.append(S.id)
+            elif S.op == "call" and not S.is_dbg() and not S.is_lifetime():
+                for a in S.call_args():
+                    if a[0] in ("i", "a") and ir.ptr_base(f, a)[0] == base:
+                        # a callee given the object may write it, unless it is a memcpy/memset elsewhere in the object
+                        intr = S.get("intrinsic") or ""
+                        if intr.startswith("llvm.mem") and a == S.call_args()[0]:
+                            b3, o3 = self._field_base(a)
+                            ln = S.call_args()[2]
+                            if o3 is not None and ln[0] == "c" and not (o3 < off + L.get("size") and off < o3 + const_val(ln)):
+                                continue
+                            if o3 is not None and ln[0] != "c":
+                                # variable length: the write stays inside the array field the pointer is in (C object model; bounds are R-C06-BOUNDS)
+                                ext = self._leaf_extent(base, o3)
+                                if ext is not None and (off >= ext[1] or off + L.get("size") <= ext[0]):
+                                    continue
+                        if intr.startswith("llvm.memcpy") and a == S.call_args()[1] and a != S.call_args()[0]:
+                            continue
+                        writers.append(S.id)
+        best = None
+        for M in f.insts:
+            if M.op != "load" or M.id >= L.id and M.b == L.b or M.id == L.id:
+                continue
+            if ir.ptr_base(f, M.ops[0]) != (base, off) or M.get("size") != L.get("size"):
+                continue
+            if not f.dominates(M.id, L.id):
+                continue
+            if any(f.can_reach(M.id, w, avoid_insts=[L.id]) and f.can_reach(w, L.id, avoid_insts=[M.id]) for w in writers):
+                continue
+            if best is None or M.id < best.id:
+                best = M
+        return best
+
+    def _field_base(self, v):
+        """(param base, constant offset of the last constant-offset pointer on the chain) - a variable index
+        on top of it stays within the field"""
+        f = self.f
+        off = 0
+        cur = v
+        last = None
+        chain = []
+        while True:
+            I = f.inst(cur)
+            if I is None:
+                break
+            if I.op == "bitcast":
+                cur = I.ops[0]
+            elif I.op == "getelementptr":
+                chain.append(I)
+                cur = I.ops[0]
+            else:
+                break
+        if cur[0] != "a":
+            return cur, None
+        o = 0
+        for G in reversed(chain):
+            if G.get("off") is None:
+                return cur, None
+            if G.get("var"):
+                return cur, o + G.get("off")
+            o += G.get("off")
+        return cur, o
+
+    def _leaf_extent(self, base, off):
+        from .dep import leaf_layout
+        f = self.f
+        if base[0] != "a":
+            return None
+        p = f.params[base[1]]
+        if not p["di"]["ptr"]:
+            return None
+        ll = leaf_layout(f.mod, p["di"]["pointee"])
+        if not ll:
+            return None
+        for lo, hi in ll:
+            if lo <= off < hi:
+                return (lo, hi)
         return None
 
     def reaching_store(self, L):
